@@ -388,7 +388,7 @@ def correspondence(ctx, obs, quick):
 
 def run(ctx):
     binp = build_harness(ctx)
-    msgs, spans = regen(ctx, ["spectrum", "efficiencies", "pm_integrand", "grid"])
+    msgs, spans = regen(ctx, ["spectrum", "efficiencies", "pm_integrand", "grid", "hom", "schmidt"])
     keys = ("phasematch", "jsa", "utils", "math", "beam", "spdc::efficiencies")
     ctx.cov["translated_spans"] = {k: v for k, v in spans.items() if k.startswith(keys)}
     for m in msgs:
@@ -420,7 +420,7 @@ def run(ctx):
                        "bandwidth/power/deff; (power, deff) scaled over six decades; distinct = distinct (setup, input bits)")
     ctx.cov["clauses"] = {
         "intensities/rates proportional to power x deff^2": "proved (generated normalisation; raw amplitudes syntactically independent: frame scan; rates = generated rendering of counts.rs with the generated correction factor and cell area dws*dwi) + Rust-vs-Rust 1e-12 over six decades; grids with unequal axis spacings",
-        "efficiencies / normalised spectra / Schmidt / HOM independent of power, deff": "proved on the generated/hand models (SVD, HOM and two-source HOM sums as list models; two sources scaled independently) + Rust-vs-Rust",
+        "efficiencies / normalised spectra / Schmidt / HOM independent of power, deff": "proved over the GENERATED definitions (Gen/Spectrum.v amplitude composed with Gen/HomSrc.v, Gen/SchmidtSrc.v via grpF's models; two sources scaled independently; normalised amplitude and intensities) + Rust-vs-Rust on every *_range accessor, sweep, hom_rate(_series), two-source (self and independent)",
         "envelope 1 at centre, 1/2 at +- half FWHM span": "proved (exact, and only there) + interval correspondence",
         "jsa_raw = envelope x phasematching": "proved + bitwise on Rust",
         "exact zero off support (box, threshold)": "proved, box proved equal to the property's (strictness included) + exact-zero comparison incl. 1-ulp boundary points",
